@@ -52,6 +52,12 @@ func judgeWellFormed(c *core.Ctx, stream string, idx int, p model.Piece, f model
 	}
 	c.Count("events_decoded", n)
 	c.Seen("track_counts", fmt.Sprint(f.Tracks()))
+	if idx%250 == 0 {
+		d := pieceDesc(p, f)
+		d["file_bytes"] = len(out)
+		d["events"] = n
+		c.Sample(d)
+	}
 	if f.Tracks() > 1 || len(p.Inst) > 3 {
 		c.Nontrivial(sig + fmt.Sprint(idx))
 	}
